@@ -1021,3 +1021,9 @@ mod test {
         println!("bytes_sent {bytes_sent}");
     }
 }
+
+#[cfg(kani)]
+#[allow(warnings, clippy::all, clippy::pedantic)]
+mod verif_kani {
+    include!(concat!(env!("IPA_VERIF_DIR"), "/harness/dp.rs"));
+}
